@@ -8,7 +8,7 @@ import (
 	"package-operator.run/verifharness/engine"
 )
 
-var c11Specials = []string{"ghost", "ownerref", "foreignns", "clusterkind", "clusterkind-ns", "reject", "dup"}
+var c11Specials = []string{"ghost", "ownerref", "foreignns", "clusterkind", "clusterkind-ns", "reject", "dup", "dupver"}
 
 func genC11(t *rapid.T) *Scenario {
 	sc := &Scenario{Prop: "C11"}
@@ -26,6 +26,10 @@ func genC11(t *rapid.T) *Scenario {
 		case 10:
 			// the API server answers one of the next pass's calls (dry runs come early) with an error: plain failure, lost
 			// response, 500, 429, 503 or timeout status
+			if rapid.Bool().Draw(t, "ondryrun") {
+				sc.Steps = append(sc.Steps, Step{Op: "faultDryRun", I: rapid.IntRange(0, 5).Draw(t, "ndry"), J: rapid.IntRange(0, 4).Draw(t, "dkind")}, GenReconcile(t, ctrls))
+				continue
+			}
 			sc.Steps = append(sc.Steps, Step{Op: "fault", I: rapid.IntRange(0, 9).Draw(t, "ncall"), J: rapid.SampledFrom([]int{0, 1, 4, 5, 6, 7}).Draw(t, "fkind")}, GenReconcile(t, ctrls))
 		case 0, 1, 2, 3, 4, 5:
 			sc.Steps = append(sc.Steps, GenReconcile(t, ctrls))
